@@ -19,5 +19,6 @@ INVARIANT TerminalOnlyForInvoked
 INVARIANT ExactlyOneTerminalWhileUp
 INVARIANT ProgressOnlyWhileRunning
 INVARIANT HandlersAreCurrent
+INVARIANT CancelSentOnce
 PROPERTY NothingPendingAfterSessionEnd
 CHECK_DEADLOCK FALSE
